@@ -32,6 +32,7 @@ type spec struct {
 	children  []*spec
 	dynamic   int // simple-one-for-one: children started after the build
 	poolSize  int
+	trap      bool // worker (or the workers of a pool) traps exit signals: the owner's exit still takes it down
 }
 
 var supTypes = []act.SupervisorType{act.SupervisorTypeOneForOne, act.SupervisorTypeAllForOne, act.SupervisorTypeRestForOne, act.SupervisorTypeSimpleOneForOne}
@@ -60,6 +61,9 @@ func genSpec(t *rapid.T, label string, depth int) *spec {
 		}
 	case kPool:
 		s.poolSize = rapid.IntRange(1, 3).Draw(t, "pool-size")
+		s.trap = rapid.Bool().Draw(t, "workers-trap-exits")
+	case kWorker:
+		s.trap = rapid.Bool().Draw(t, "traps-exits")
 	}
 	return s
 }
@@ -67,8 +71,14 @@ func genSpec(t *rapid.T, label string, depth int) *spec {
 func (s *spec) describe() string {
 	switch s.kind {
 	case kWorker:
+		if s.trap {
+			return "wT"
+		}
 		return "w"
 	case kPool:
+		if s.trap {
+			return fmt.Sprintf("pool%dT", s.poolSize)
+		}
 		return fmt.Sprintf("pool%d", s.poolSize)
 	}
 	var c []string
@@ -151,10 +161,20 @@ type world struct {
 	seen   map[gen.PID]bool // incarnations that were observed in the process table (really started)
 }
 
+// groupSup: label names a supervisor with named child specs (not a simple-one-for-one one).
+func (w *world) groupSup(all []*spec, label string) bool {
+	for _, s := range all {
+		if s.label == label {
+			return s.kind == kSup && s.supType != act.SupervisorTypeSimpleOneForOne
+		}
+	}
+	return false
+}
+
 func (w *world) logf(f string, a ...any) { w.trace = append(w.trace, fmt.Sprintf(f, a...)) }
 
-func (w *world) workerFactory(label string) gen.ProcessFactory {
-	return kit.Factory(&kit.ActorConfig{Label: label, Probe: w.probe, Quiet: true,
+func (w *world) workerFactory(label string, trap bool) gen.ProcessFactory {
+	return kit.Factory(&kit.ActorConfig{Label: label, Probe: w.probe, Quiet: true, Trap: trap,
 		OnInit: func(a *kit.Actor, args ...any) error {
 			if g := w.gates.take(label); g != nil {
 				if g.fail {
@@ -170,9 +190,9 @@ func (w *world) workerFactory(label string) gen.ProcessFactory {
 func (w *world) factory(s *spec) gen.ProcessFactory {
 	switch s.kind {
 	case kWorker:
-		return w.workerFactory(s.label)
+		return w.workerFactory(s.label, s.trap)
 	case kPool:
-		wf := w.workerFactory(s.label + ".w")
+		wf := w.workerFactory(s.label+".w", s.trap)
 		return kit.PoolFactory(&kit.PoolConfig{Label: s.label, Probe: w.probe,
 			Options: func(args ...any) (act.PoolOptions, error) {
 				return act.PoolOptions{PoolSize: int64(s.poolSize), WorkerFactory: wf}, nil
@@ -417,7 +437,7 @@ func (w *world) hit(label string, pid gen.PID, kind int) {
 }
 
 var recTree = kit.NewRecorder("C10", "trees",
-	"1-3 root trees of depth <= 3, fan-out <= 3, mixing supervisors of all four types (all strategies, keep-order on/off, simple-one-for-one with dynamic children), pools and plain workers, started standalone or as members of an application (optionally after a short-lived first member that stops by itself); 1-3 faults {Kill, abnormal exit signal, shutdown exit signal, crash, normal exit, panic} at generated processes, placed idle, while a child of the target is parked in its Init (start-up or restart in progress), or while a child is busy in a handler (slow shutdown); then a final action in {none, ApplicationStop, Node.Stop, Node.StopForce}; "+
+	"1-3 root trees of depth <= 3, fan-out <= 3, mixing supervisors of all four types (all strategies, keep-order on/off, simple-one-for-one with dynamic children), pools and plain workers (trapping exit signals or not), started standalone or as members of an application (optionally after a short-lived first member that stops by itself); 1-3 faults {Kill, abnormal exit signal, shutdown exit signal, crash, normal exit, panic} at generated processes, placed idle, while a child of the target is parked in its Init (start-up or restart in progress), or while a child is busy in a handler (slow shutdown; also a child that was disabled a moment ago and is still busy when its supervisor is told to shut down); then a final action in {none, ApplicationStop, Node.Stop, Node.StopForce}; "+
 		"oracle: every recorded incarnation knows its parent incarnation; a process that is alive while its owner incarnation has terminated is an orphan (polled 5 s, then a stable witness); ApplicationStop()==nil implies state loaded and no live process carrying that application; a failed ApplicationStart leaves state loaded and no live process carrying the application; after Node.Stop/StopForce every recorded process has terminated; "+
 		"non-trivial = a fault hit a supervisor or pool while one of its children was starting, restarting or busy; distinct by tree and history")
 
@@ -629,7 +649,7 @@ func TestTrees(t *testing.T) {
 			}
 			target := live[rapid.IntRange(0, len(live)-1).Draw(t, "target")]
 			kind := rapid.IntRange(0, 5).Draw(t, "fault")
-			placement := rapid.IntRange(0, 4).Draw(t, "placement")
+			placement := rapid.IntRange(0, 5).Draw(t, "placement")
 			// children of the target that are plain workers
 			var kids []inst
 			for _, i := range live {
@@ -728,6 +748,43 @@ func TestTrees(t *testing.T) {
 				_ = owner
 				nontrivial = true
 				time.Sleep(time.Duration(rapid.IntRange(0, 3).Draw(t, "hold2-ms")) * time.Millisecond)
+				close(g.Open)
+				w.parked = w.parked[:len(w.parked)-1]
+			case placement == 5 && len(kids) > 0 && w.groupSup(all, target.label):
+				// a child that was disabled is still on its way out (busy in a handler) when the
+				// supervisor is told to shut down: the supervisor waits for it like for the others
+				kid := kids[rapid.IntRange(0, len(kids)-1).Draw(t, "disabled-busy-child")]
+				g := kit.Gate{Entered: make(chan struct{}), Open: make(chan struct{})}
+				if node.Send(kid.pid, g) != nil {
+					break
+				}
+				select {
+				case <-g.Entered:
+				case <-time.After(5 * time.Second):
+					close(g.Open)
+					continue
+				}
+				w.parked = append(w.parked, g.Open)
+				w.logf("busy(%s)", kid.label)
+				var derr error
+				done := make(chan struct{})
+				if node.Send(target.pid, kit.DoSup{F: func(x *kit.Sup) { derr = x.DisableChild(gen.Atom(kid.label)) }, Done: done}) == nil {
+					select {
+					case <-done:
+					case <-time.After(5 * time.Second):
+					}
+				}
+				w.logf("DisableChild(%s)=%v", kid.label, derr)
+				node.SendExit(target.pid, gen.TerminateReasonShutdown)
+				w.logf("exit-shutdown(%s)", target.label)
+				nontrivial = true
+				// while the child is parked it is alive; its supervisor may not be gone before it
+				early := kit.WaitUntil(time.Duration(100+rapid.IntRange(0, 100).Draw(t, "watch-ms"))*time.Millisecond, func() bool {
+					return w.absent(target.pid) && w.alive(kid.pid)
+				})
+				if early {
+					t.Fatalf("supervisor %s was told to shut down and is gone while its child %s %s (disabled a moment ago, still busy in a handler) is alive\n  tree: %s\n  history: %s", target.label, kid.label, kid.pid, w.describe(), strings.Join(w.trace, "; "))
+				}
 				close(g.Open)
 				w.parked = w.parked[:len(w.parked)-1]
 			case placement == 3 && len(kids) > 0:
